@@ -108,4 +108,27 @@ def mixture {dA dB K : Nat} (lam : Fin K → α) (a : Fin K → Fin dA → α) (
 
 end ring
 
+/-! ## bisection used by the inner models' `get_boundary` (`_ree_bisection_solve`, `entangle/_misc.py:13-30`) -/
+
+section bisect
+variable {α : Type} [Add α] [Div α] [OfNat α 2] [LE α] [DecidableRel (α := α) (· ≤ ·)]
+
+/-- the loop of `_ree_bisection_solve`: `xi = (x0+x1)/2; yi = hf(xi); if yi >= threshold: x1 = xi else: x0 = xi`, `maxiter` times;
+returns `(x0, x1, xi)` after the last step (`xi` is what the implementation returns) -/
+def bisectLoop (hf : α → α) (threshold : α) : Nat → α → α → α → α × α × α
+  | 0, x0, x1, xi => (x0, x1, xi)
+  | m + 1, x0, x1, _ =>
+    let xi := (x0 + x1) / 2
+    if threshold ≤ hf xi then bisectLoop hf threshold m x0 xi xi else bisectLoop hf threshold m xi x1 xi
+
+end bisect
+
+/-- `maxiter = int(ceil(log2(max(2, (x1-x0)/xtol))))` for a ratio given as `num/den`: the least `m ≥ 1` with `2^m · den ≥ num` -/
+def bisectMaxiter (num den : Nat) : Nat :=
+  let rec go (fuel m pw : Nat) : Nat :=
+    match fuel with
+    | 0 => m
+    | f + 1 => if num ≤ pw * den then m else go f (m + 1) (pw * 2)
+  go (num + 2) 1 2
+
 end Numqi.Boundary
